@@ -159,48 +159,7 @@ func runC02(r *Run, p *Prog) {
 		if n < 2 {
 			r.Unresolved("F2", "frame reads in both directions (service loop and client receive)")
 		}
-		// inside ctxio: delimiter passed through, result returned unchanged through the channel
-		for _, op := range DiscoverCtxOps(p, T, pkgCtxio) {
-			// the frame-read primitive: the operation whose first result is a byte slice
-			res := op.Fn.Signature.Results()
-			if res.Len() == 0 {
-				continue
-			}
-			if sl, ok := res.At(0).Type().Underlying().(*types.Slice); !ok || !types.Identical(sl.Elem(), types.Typ[types.Byte]) {
-				continue
-			}
-			fn := shortName(op.Fn)
-			// every consuming call on a bufio.Reader made by the helper (directly or in repo callees)
-			var consumers []CallSite
-			if op.Closure != nil {
-				for g := range cg.Reach([]*ssa.Function{op.Closure}, false) {
-					for _, cs := range callsIn(g, false) {
-						sc := cs.Common.StaticCallee()
-						if sc != nil && sc.Signature.Recv() != nil && isNamed(sc.Signature.Recv().Type(), "bufio", "Reader") && bufioConsumers[sc.Name()] {
-							consumers = append(consumers, cs)
-						}
-					}
-				}
-			}
-			okCallee := len(consumers) == 1 && funcFullName(consumers[0].Common.StaticCallee()) == "bufio.Reader.ReadBytes" && consumers[0].Fn == op.Closure
-			var names []string
-			for _, c := range consumers {
-				names = append(names, funcFullName(c.Common.StaticCallee())+" in "+shortName(c.Fn))
-			}
-			r.Ob("F2", fn, "delimiter read is one direct bufio.Reader.ReadBytes call", op.Go.Pos(), okCallee,
-				fmt.Sprintf("frames are read with %v: only a single bufio.Reader.ReadBytes returns an owned copy of an arbitrarily long frame (ReadSlice/ReadLine/Peek alias the 4 KiB buffer, and combining reads needs care)", names))
-			if !okCallee {
-				continue
-			}
-			{
-				a := op.IOCall.Common().Args
-				dt := strip(T.T(a[len(a)-1]))
-				r.Ob("F2", fn, "delimiter passed through unchanged", op.IOCall.Pos(), dt == "param:"+op.Fn.Params[len(op.Fn.Params)-1].Name(), "delimiter handed to the buffered reader is "+dt)
-			}
-			// value flow: send struct{ext(io,0), ext(io,1)}; return fields of the received struct in the same order
-			ok, why := channelPassThrough(T, op)
-			r.Ob("F2", fn, "the bytes read are returned unchanged", op.Fn.Pos(), ok, why)
-		}
+		ctxioFrameReadRules(r, p, T, cg, "F2")
 		r.Floor("F2", 6)
 	})
 	// ---- F3
@@ -346,4 +305,51 @@ func fieldNameOfResult(op *CtxOp, i int) string {
 		return st.Field(i).Name()
 	}
 	return "?"
+}
+
+// ctxioFrameReadRules: inside ctxio the frame-read primitive reads with one direct bufio.Reader.ReadBytes(delim),
+// passes the delimiter through and returns the result unchanged through the result channel.
+func ctxioFrameReadRules(r *Run, p *Prog, T *Terms, cg *CallGraph, rule string) {
+	// inside ctxio: delimiter passed through, result returned unchanged through the channel
+	for _, op := range DiscoverCtxOps(p, T, pkgCtxio) {
+		// the frame-read primitive: the operation whose first result is a byte slice
+		res := op.Fn.Signature.Results()
+		if res.Len() == 0 {
+			continue
+		}
+		if sl, ok := res.At(0).Type().Underlying().(*types.Slice); !ok || !types.Identical(sl.Elem(), types.Typ[types.Byte]) {
+			continue
+		}
+		fn := shortName(op.Fn)
+		// every consuming call on a bufio.Reader made by the helper (directly or in repo callees)
+		var consumers []CallSite
+		if op.Closure != nil {
+			for g := range cg.Reach([]*ssa.Function{op.Closure}, false) {
+				for _, cs := range callsIn(g, false) {
+					sc := cs.Common.StaticCallee()
+					if sc != nil && sc.Signature.Recv() != nil && isNamed(sc.Signature.Recv().Type(), "bufio", "Reader") && bufioConsumers[sc.Name()] {
+						consumers = append(consumers, cs)
+					}
+				}
+			}
+		}
+		okCallee := len(consumers) == 1 && funcFullName(consumers[0].Common.StaticCallee()) == "bufio.Reader.ReadBytes" && consumers[0].Fn == op.Closure
+		var names []string
+		for _, c := range consumers {
+			names = append(names, funcFullName(c.Common.StaticCallee())+" in "+shortName(c.Fn))
+		}
+		r.Ob(rule, fn, "delimiter read is one direct bufio.Reader.ReadBytes call", op.Go.Pos(), okCallee,
+			fmt.Sprintf("frames are read with %v: only a single bufio.Reader.ReadBytes returns an owned copy of an arbitrarily long frame (ReadSlice/ReadLine/Peek alias the 4 KiB buffer, and combining reads needs care)", names))
+		if !okCallee {
+			continue
+		}
+		{
+			a := op.IOCall.Common().Args
+			dt := strip(T.T(a[len(a)-1]))
+			r.Ob(rule, fn, "delimiter passed through unchanged", op.IOCall.Pos(), dt == "param:"+op.Fn.Params[len(op.Fn.Params)-1].Name(), "delimiter handed to the buffered reader is "+dt)
+		}
+		// value flow: send struct{ext(io,0), ext(io,1)}; return fields of the received struct in the same order
+		ok, why := channelPassThrough(T, op)
+		r.Ob(rule, fn, "the bytes read are returned unchanged", op.Fn.Pos(), ok, why)
+	}
 }
